@@ -144,6 +144,7 @@ def features(d=None):
     and availability is judged by part (a))."""
     F = []
     gE = d.providers[E]['generation'] if d is not None else 1
+    gR = d.providers[R]['generation'] if d is not None else 1
     cgK1 = d.consumers[K1]['generation'] if d is not None else 1
     others = (set(d.providers) - {R}) if d is not None else {C, S, E}
 
@@ -232,6 +233,21 @@ def features(d=None):
         lambda v, s: Req('PUT', '/resource_providers/%s/inventories/VCPU'
                          % E, s, {'resource_provider_generation': gE,
                                   'total': 4, 'reserved': 4}),
+        st_in(200), st_in(400))
+    # (R already holds DISK_GB with reserved == total, written at 1.39)
+    r_invs = {rc: dict(f) for (p, rc), f in d.inventories.items()
+              if p == R} if d is not None else {}
+    add('1.26 reserved == total: all records sent back exactly as stored',
+        26,
+        lambda v, s: Req('PUT', '/resource_providers/%s/inventories' % R, s,
+                         {'resource_provider_generation': gR,
+                          'inventories': r_invs}),
+        st_in(200), st_in(400))
+    add('1.26 reserved == total: one record sent back as stored (single PUT)',
+        26,
+        lambda v, s: Req('PUT', '/resource_providers/%s/inventories/DISK_GB'
+                         % R, s, dict(r_invs.get('DISK_GB', {}),
+                                      resource_provider_generation=gR)),
         st_in(200), st_in(400))
     # 1.28 consumer generation
     add('1.28 consumer_generation accepted in PUT allocations', 28,
